@@ -166,39 +166,49 @@ Proof.
 Qed.
 
 (* ------------------------------------------------------------------ termination criteria *)
-Lemma is_termination_gen_limit ts l gen tm : forall tp,
-    gen_limit ts = Some l -> l <= gen -> fst (is_termination ts gen tm tp) = true.
+(* CompositeTermination = any: whatever other criteria are configured (before or after it in the list), the composite is
+   terminated as soon as the generation limit is reached - further criteria can only stop the run EARLIER *)
+Lemma is_termination_gen_limit ts l gen tm ot : forall tp,
+    gen_limit ts = Some l -> l <= gen -> fst (is_termination ts gen tm ot tp) = true.
 Proof.
-  induction ts as [|t r IH]; intros tp Hl Hle; cbn [gen_limit] in Hl; [discriminate|].
-  destruct t as [l'|]; cbn [is_termination].
+  induction ts as [|t r IH]; intros tp Hl Hle; [discriminate|].
+  destruct t as [l'| |i]; cbn [is_termination gen_limit] in *.
   - injection Hl as ->. apply Nat.leb_le in Hle. rewrite Hle. reflexivity.
   - destruct (tm tp); [reflexivity|]. apply IH; assumption.
+  - destruct (ot i tp); [reflexivity|]. apply IH; assumption.
 Qed.
+
+(* the limit of the MaxGeneration criterion is the configured max_generations, whatever else is configured *)
+Lemma gen_limit_terminations N mt cv tg : gen_limit (terminations (Some N) mt cv tg) = Some N.
+Proof. reflexivity. Qed.
 
 Lemma gen_limit_cfg cfg N : c_max_gen cfg = Some N -> gen_limit (cfg_terms cfg) = Some N.
 Proof. intros H. unfold cfg_terms, terminations. rewrite H. destruct (c_max_time cfg); reflexivity. Qed.
 
-Lemma is_termination_exact N mt gen tm tp :
-  (forall t, tm t = false) -> fst (is_termination (terminations (Some N) mt) gen tm tp) = (N <=? gen).
+Lemma is_termination_exact N mt cv tg gen tm ot tp :
+  (forall t, tm t = false) -> (forall i t, ot i t = false) ->
+  fst (is_termination (terminations (Some N) mt cv tg) gen tm ot tp) = (N <=? gen).
 Proof.
-  intros Htm. unfold terminations. destruct mt; cbn [app is_termination]; destruct (N <=? gen); try reflexivity.
-  rewrite Htm. reflexivity.
+  intros Htm Hot. unfold terminations. destruct mt, cv, tg; cbn [app is_termination]; destruct (N <=? gen);
+    rewrite ?Htm, ?Hot; reflexivity.
 Qed.
 
 Definition first_check_passes (cfg : econfig) (W : oracles) : Prop :=
-  fst (is_termination (cfg_terms cfg) 0 (o_time W) 0) = false /\ est_exceeds (cfg_terms cfg) 0 (o_init_quota W 0) = false.
+  fst (is_termination (cfg_terms cfg) 0 (o_time W) (o_other W) 0) = false /\ est_exceeds (cfg_terms cfg) 0 (o_init_quota W 0) = false.
 
 Lemma first_check_positive_limit cfg W N :
-  c_max_gen cfg = Some N -> 1 <= N -> (c_max_time cfg = true -> o_time W 0 = false /\ o_init_quota W 0 = false) ->
+  c_max_gen cfg = Some N -> 1 <= N ->
+  (forall t, t < 3 -> o_time W t = false /\ forall i, o_other W i t = false) -> (c_max_time cfg = true -> o_init_quota W 0 = false) ->
   first_check_passes cfg W.
 Proof.
-  intros Hg HN Ht. unfold first_check_passes, cfg_terms, terminations. rewrite Hg.
+  intros Hg HN Hquiet Hiq. unfold first_check_passes, cfg_terms, terminations. rewrite Hg.
+  destruct (Hquiet 0) as [Ht0 Ho0]; [lia|]. destruct (Hquiet 1) as [Ht1 Ho1]; [lia|]. destruct (Hquiet 2) as [Ht2 Ho2]; [lia|].
   assert (E1 : (N <=? 0) = false) by (apply Nat.leb_gt; lia).
   assert (E2 : (N =? 0) = false) by (apply Nat.eqb_neq; lia).
   assert (E3 : (N <? 20 * 0) = false) by (apply Nat.ltb_ge; lia).
-  destruct (c_max_time cfg); cbn [app is_termination est_exceeds existsb]; rewrite E1, E2, E3.
-  - destruct (Ht eq_refl) as [H1 H2]. rewrite H1, H2. split; reflexivity.
-  - split; reflexivity.
+  destruct (c_max_time cfg) eqn:Emt; [rewrite (Hiq eq_refl)|];
+    destruct (c_min_cv cfg), (c_target cfg); cbn [app is_termination est_exceeds existsb];
+    rewrite E1, E2, E3, ?Ht0, ?Ht1, ?Ht2, ?Ho0, ?Ho1, ?Ho2; split; reflexivity.
 Qed.
 
 (* ------------------------------------------------------------------ telemetry *)
@@ -280,7 +290,7 @@ Section Evolve.
   Proof.
     induction n as [|n IH]; intros idx st Hpop; cbn [initial].
     - exists st. split; [reflexivity|]. split; [exact Hpop|]. split; [reflexivity|exists []; rewrite app_nil_r; reflexivity].
-    - destruct (is_termination (cfg_terms cfg) (t_stat_gen (s_tele st)) (o_time W) (s_tpolls st)) as [term tp].
+    - destruct (is_termination (cfg_terms cfg) (t_stat_gen (s_tele st)) (o_time W) (o_other W) (s_tpolls st)) as [term tp].
       destruct (est_exceeds (cfg_terms cfg) (t_stat_gen (s_tele st)) (o_init_quota W idx) || term).
       + eexists. split; [reflexivity|]. cbn [s_pop s_tele]. split; [exact Hpop|]. split; [reflexivity|exists []; rewrite app_nil_r; reflexivity].
       + destruct (process_good (o_init_ev W idx) (mkP (init jobs) (c_reg cfg) (s_polls st) 0) (proj1 HW idx) (homes_init jobs))
@@ -293,14 +303,14 @@ Section Evolve.
   Qed.
 
   Lemma initial_first n st :
-    fst (is_termination (cfg_terms cfg) (t_stat_gen (s_tele st)) (o_time W) (s_tpolls st)) = false ->
+    fst (is_termination (cfg_terms cfg) (t_stat_gen (s_tele st)) (o_time W) (o_other W) (s_tpolls st)) = false ->
     est_exceeds (cfg_terms cfg) (t_stat_gen (s_tele st)) (o_init_quota W 0) = false ->
     Forall (Good jobs) (s_pop st) ->
     exists st1, initial (S n) 0 cfg W q st = Some st1
                 /\ Forall (Good jobs) (s_pop st1) /\ s_tele st1 = s_tele st /\ s_pop st1 <> [].
   Proof.
     intros Ht He Hpop. cbn [initial].
-    destruct (is_termination (cfg_terms cfg) (t_stat_gen (s_tele st)) (o_time W) (s_tpolls st)) as [term tp].
+    destruct (is_termination (cfg_terms cfg) (t_stat_gen (s_tele st)) (o_time W) (o_other W) (s_tpolls st)) as [term tp].
     cbn [fst] in Ht. subst term. rewrite He. cbn [orb].
     destruct (process_good (o_init_ev W 0) (mkP (init jobs) (c_reg cfg) (s_polls st) 0) (proj1 HW 0) (homes_init jobs))
       as (p & E & Hg & _).
@@ -325,12 +335,12 @@ Section Evolve.
                       -> length (t_evolution (s_tele st')) = gens_run (s_tele st')).
   Proof.
     intros Hl. induction fuel as [|f IH]; intros st Hpop Hwf Hg Hfuel; cbn [iloop];
-      destruct (is_termination (cfg_terms cfg) (t_stat_gen (s_tele st)) (o_time W) (s_tpolls st)) as [term tp] eqn:Eterm;
+      destruct (is_termination (cfg_terms cfg) (t_stat_gen (s_tele st)) (o_time W) (o_other W) (s_tpolls st)) as [term tp] eqn:Eterm;
       destruct (term || q (s_polls st)) eqn:Estop.
     - eexists. split; [reflexivity|]. cbn [s_pop s_tele]. split; [exact Hpop|]. split; [exists []; rewrite app_nil_r; reflexivity|].
       split; [exact Hwf|]. split; [exact Hg|]. split; [intros; lia|auto].
     - exfalso. apply orb_false_iff in Estop. destruct Estop as [Et _]. subst term.
-      pose proof (is_termination_gen_limit (cfg_terms cfg) l (t_stat_gen (s_tele st)) (o_time W) (s_tpolls st) Hl) as Hterm.
+      pose proof (is_termination_gen_limit (cfg_terms cfg) l (t_stat_gen (s_tele st)) (o_time W) (o_other W) (s_tpolls st) Hl) as Hterm.
       rewrite Eterm in Hterm. cbn [fst] in Hterm.
       destruct (tele_wf_gens _ Hwf) as [[H1 H2]|H1].
       + assert (l = 0) by lia. subst l. rewrite H2 in Hterm. specialize (Hterm (le_n 0)). discriminate.
@@ -339,7 +349,7 @@ Section Evolve.
       split; [exact Hwf|]. split; [exact Hg|]. split; [intros; lia|auto].
     - apply orb_false_iff in Estop. destruct Estop as [Et Eq]. subst term.
       assert (Hlt : gens_run (s_tele st) <= l).
-      { pose proof (is_termination_gen_limit (cfg_terms cfg) l (t_stat_gen (s_tele st)) (o_time W) (s_tpolls st) Hl) as Hterm.
+      { pose proof (is_termination_gen_limit (cfg_terms cfg) l (t_stat_gen (s_tele st)) (o_time W) (o_other W) (s_tpolls st) Hl) as Hterm.
         rewrite Eterm in Hterm. cbn [fst] in Hterm.
         destruct (tele_wf_gens _ Hwf) as [[H1 H2]|H1]; [lia|].
         destruct (le_lt_dec l (t_stat_gen (s_tele st))) as [Hle|Hgt]; [specialize (Hterm Hle); discriminate|lia]. }
@@ -372,15 +382,16 @@ Section Evolve.
   (* nothing but the generation limit stops the loop: exactly l + 1 generations *)
   Lemma iloop_exact N :
     c_max_gen cfg = Some N -> 1 <= N -> (forall n, q n = false) -> (forall t, o_time W t = false) ->
+    (forall i t, o_other W i t = false) ->
     forall fuel st,
       Forall (Good jobs) (s_pop st) -> tele_wf (s_tele st) -> gens_run (s_tele st) <= S N -> S N - gens_run (s_tele st) <= fuel ->
       exists st', iloop fuel cfg W q st = Some st' /\ gens_run (s_tele st') = S N /\ t_metric_gens (s_tele st') = N
                   /\ (exists e, s_pop st' = s_pop st ++ e).
   Proof.
-    intros Hc HN Hq Htm. induction fuel as [|f IH]; intros st Hpop Hwf Hg Hfuel; cbn [iloop];
-      pose proof (is_termination_exact N (c_max_time cfg) (t_stat_gen (s_tele st)) (o_time W) (s_tpolls st) Htm) as Hterm;
+    intros Hc HN Hq Htm Hot. induction fuel as [|f IH]; intros st Hpop Hwf Hg Hfuel; cbn [iloop];
+      pose proof (is_termination_exact N (c_max_time cfg) (c_min_cv cfg) (c_target cfg) (t_stat_gen (s_tele st)) (o_time W) (o_other W) (s_tpolls st) Htm Hot) as Hterm;
       unfold cfg_terms; rewrite Hc;
-      destruct (is_termination (terminations (Some N) (c_max_time cfg)) (t_stat_gen (s_tele st)) (o_time W) (s_tpolls st)) as [term tp];
+      destruct (is_termination (terminations (Some N) (c_max_time cfg) (c_min_cv cfg) (c_target cfg)) (t_stat_gen (s_tele st)) (o_time W) (o_other W) (s_tpolls st)) as [term tp];
       cbn [fst] in Hterm; subst term; rewrite Hq, orb_false_r;
       destruct (N <=? t_stat_gen (s_tele st)) eqn:E.
     - apply Nat.leb_le in E. eexists. split; [reflexivity|]. cbn [s_tele].
@@ -436,15 +447,15 @@ Section Evolve.
 
   Theorem evolve_generations_exact N :
     c_max_gen cfg = Some N -> 1 <= N -> 1 <= c_init_ops cfg -> 1 <= c_init_size cfg -> first_check_passes cfg W ->
-    (forall n, q n = false) -> (forall t, o_time W t = false) ->
+    (forall n, q n = false) -> (forall t, o_time W t = false) -> (forall i t, o_other W i t = false) ->
     exists best st, evolve cfg W q = EOk best st /\ gens_run (s_tele st) = S N /\ t_metric_gens (s_tele st) = N.
   Proof.
-    intros Hc HN Hops Hsize [Hf1 Hf2] Hq Htm. unfold evolve.
+    intros Hc HN Hops Hsize [Hf1 Hf2] Hq Htm Hot. unfold evolve.
     assert (E0 : (c_init_ops cfg =? 0) = false) by (apply Nat.eqb_neq; lia). rewrite E0.
     destruct (c_init_size cfg) as [|n] eqn:En; [lia|].
     destruct (initial_first n estate0 Hf1 Hf2 (Forall_nil _)) as (st1 & E1 & Hp1 & Ht1 & Hne1). rewrite E1.
     pose proof (gen_limit_cfg cfg N Hc) as Hl. unfold loop_fuel. rewrite Hl.
-    destruct (iloop_exact N Hc HN Hq Htm (S N) st1 Hp1) as (st2 & E2 & Hg2 & Hm2 & e & He).
+    destruct (iloop_exact N Hc HN Hq Htm Hot (S N) st1 Hp1) as (st2 & E2 & Hg2 & Hm2 & e & He).
     { rewrite Ht1. apply tele0_wf. }
     { rewrite Ht1. cbn. lia. }
     { rewrite Ht1. cbn. lia. }
@@ -462,7 +473,7 @@ Theorem evolve_zero_generations cfg W q : c_max_gen cfg = Some 0 -> 1 <= c_init_
 Proof.
   intros Hc Hops. unfold evolve.
   assert (E0 : (c_init_ops cfg =? 0) = false) by (apply Nat.eqb_neq; lia). rewrite E0.
-  assert (Hterm : forall tp, is_termination (cfg_terms cfg) 0 (o_time W) tp = (true, tp)).
+  assert (Hterm : forall tp, is_termination (cfg_terms cfg) 0 (o_time W) (o_other W) tp = (true, tp)).
   { intros tp. unfold cfg_terms, terminations. rewrite Hc. destruct (c_max_time cfg); reflexivity. }
   assert (Hinit : initial (c_init_size cfg) 0 cfg W q estate0 = Some estate0).
   { destruct (c_init_size cfg); cbn [initial]; [reflexivity|].
